@@ -40,6 +40,10 @@ def run(ck: vlib.Check):
         spec = {"pool": {"locs": [], "cuwps": [], "switches": []},
                 "ops": [] if k == 0 else [["add_triggers", [{"conds": [], "acts": [["rich", 1, [], [False] * 5]], "players": [0]}]]]}
         cases.insert(0, (f"sweep:{k}", base, spec))
+    cases = boundary_cases(rng) + cases
+    known, _ = vlib.load_known_findings(PROP)
+    known_keys = {f["key"]: f["text"] for f in known}
+    seen_keys = set()
     impl = []
     kinds = {"unknown_sections": 0, "raw_entries": 0}
     tables = None
@@ -57,15 +61,73 @@ def run(ck: vlib.Check):
                              f"the unmodelled content through", {"kind": "passthrough", "label": label, "base_hex": base.hex(),
                                                                  "spec": spec, "detail": "raised"}, True)
             continue
-        bad = R.c10_oracle(base, bytes(r[1]))
+        keys = set()
+        bad = R.c10_oracle(base, bytes(r[1]), keys)
+        if not bad and not keys <= set(known_keys):
+            bad = "differences of the kind " + ", ".join(sorted(keys - set(known_keys))) + " (not a recorded finding of this property)"
+        seen_keys |= keys
         if bad:
             ck.violation(f"{label}: {bad}", {"kind": "passthrough", "label": label, "base_hex": base.hex(), "spec": spec,
                                              "detail": bad}, True)
     ck.extra["unknown_or_unmodelled_sections_exercised"] = kinds["unknown_sections"]
+    # recorded findings: replay their witnesses, print KNOWN-FINDING only while they still fail
+    for key, (base, spec) in finding_witnesses().items():
+        if key in known_keys:
+            r = A.run_impl(base, spec)
+            keys = set()
+            if r[0] == 1 and R.c10_oracle(base, bytes(r[1]), keys) is None and key in keys:
+                ck.known(f"key={key} {known_keys[key]}")
     if drv_ok:
         R.correspond(ck, cases, impl, "map with unmodelled content (+ edits) -> saved bytes: implementation vs model")
     ck.sample({"case": cases[0][0], "sections": [nme.hex() for nme, _ in SC.chunks_of(cases[0][1])]})
     ck.sample({"case": cases[-1][0], "ops": [o[0] for o in cases[-1][2]["ops"]]})
+
+
+NO_EDIT = {"pool": {"locs": [], "cuwps": [], "switches": []}, "ops": []}
+ONE_TRIGGER = {"pool": {"locs": [], "cuwps": [], "switches": []},
+               "ops": [["add_triggers", [{"conds": [], "acts": [["rich", 1, [], [False] * 5]], "players": [0]}]]]}
+
+
+def two_trig_sections(seed):
+    """a map whose TRIG section (holding every unmodelled condition / action type) occurs twice, the copies apart"""
+    base = SC.MapGen(random.Random(seed), "editor", nloc=255, all_sections=True, ntrig=1, sweep=True).build()
+    ch = SC.chunks_of(base)
+    trig = [c for c in ch if c[0] == b"TRIG"][0][1]
+    # the later copy holds the same triggers in reverse order, so the two sections differ position by position
+    later = b"".join(reversed([trig[k:k + 2400] for k in range(0, len(trig), 2400)]))
+    return b"".join(n + len(p).to_bytes(4, "little") + p for n, p in ch + [(b"XTRA", b"between"), (b"TRIG", later)])
+
+
+def gap_before_unmodelled():
+    """actions [Victory, <empty>, <unsupported type 7 with arbitrary fields>]: the rich layer drops the empty slot"""
+    import sections as S
+    b = SC.MapGen(random.Random(5), "editor", nloc=255, all_sections=True, ntrig=0).build()
+    empty_a = dict.fromkeys(SC.ACTION_FIELDS, 0)
+    raw = dict(empty_a, _action_id=7, _time=123456, _first_group=77, _flags=4)
+    acts = [dict(empty_a, _action_id=1), dict(empty_a), raw] + [dict(empty_a)] * 61
+    trig = {"_conditions": [dict(dict.fromkeys(SC.COND_FIELDS, 0), _condition_id=22)] + [dict.fromkeys(SC.COND_FIELDS, 0)] * 15,
+            "_actions": acts,
+            "_player_execution": {"_execution_flags": 0, "_player_flags": [1] + [0] * 26, "_current_action_index": 0}}
+    payload = S.spec_write(S.SPEC_FULL["TRIG"], {"_triggers": [trig]})
+    return b"".join(S.frame(n, payload if n == b"TRIG" else p) for n, p in SC.chunks_of(b))
+
+
+def finding_witnesses():
+    fx = dict(SC.fixtures())
+    return {"upus-recomputed": (fx["test/resources/demon_lore_yatapi_test.chk"], NO_EDIT),
+            "interior-gap-compacted": (gap_before_unmodelled(), NO_EDIT),
+            "split-trig-sections": (two_trig_sections(41), ONE_TRIGGER)}
+
+
+def boundary_cases(rng):
+    """deterministic families: a recognised section without a rich model that the save rewrites (UPUS), the same
+    section name twice with unmodelled entries in the later copy, an empty slot in front of an unmodelled entry"""
+    out = [("two-trig:unedited", two_trig_sections(41), NO_EDIT),
+           ("two-trig:unedited:b", two_trig_sections(42), NO_EDIT),
+           ("gap-before-unmodelled", gap_before_unmodelled(), NO_EDIT)]
+    for name, b in SC.fixtures():
+        out.append(("fixture:" + name, b, NO_EDIT))
+    return out
 
 
 def replay(path: str) -> int:
